@@ -92,6 +92,12 @@ class FrameParser(Parser):
                 masking_key=masking_key,
             )
             if self.validate:
+                if frame.is_control and payload_length > 125:
+                    # The payload has not been read yet, so the check
+                    # in frame.validate() can't see its length
+                    raise errors.ProtocolError(
+                        "control frames must be <= 125 bytes in length"
+                    )
                 frame.validate()
 
             if frame.is_text:
